@@ -40,7 +40,8 @@ fn shape_of(s: &TensorShape) -> usize {
 }
 
 pub fn arch_case(rng: &mut Rng) -> String {
-    let n0 = 1 + rng.below(3);
+    // now and then the input has width 0 (an empty shape is a shape: only a 0-column layer is compatible with it)
+    let n0 = if rng.chance(1, 16) { 0 } else { 1 + rng.below(3) };
     let mut arch = Architecture::new(TensorShape::Flat { in_dim: n0 });
     let mut out = String::new();
     let ncalls = 1 + rng.below(7);
@@ -51,7 +52,8 @@ pub fn arch_case(rng: &mut Rng) -> String {
         let (desc, res): (String, Result<(), ShapeError>) = match rng.below(11) {
             0 | 1 | 2 => {
                 let indim = if rng.chance(1, 5) { cur + 1 } else { cur };
-                let outdim = 1 + rng.below(3);
+                // now and then a layer without outputs: the shape after it has width 0
+                let outdim = if rng.chance(1, 16) { 0 } else { 1 + rng.below(3) };
                 let a = rand_aff(rng, outdim, indim);
                 let mut d = String::from("linear ");
                 enc::aff(&mut d, &a);
